@@ -1,21 +1,7 @@
-import Pun.Model.Hier
-import Pun.Lemmas.PBoxFrechet
-import Mathlib.Tactic.Linarith
-open Pun Pun.PBox Pun.Hier
-#check @List.Perm.eq_of_sorted
-#check @List.eq_of_perm_of_sorted
-#check @List.Perm.eq_of_pairwise
-#check @List.pairwise_replicate
-#check @List.take_replicate
-#check @List.reverse_replicate
-#check @List.zipWith_replicate
-#check @List.map_replicate
-#check @List.flatMap_replicate
-#check @List.getLastD_replicate
-#check @List.getLast?_replicate
-#check @List.foldl_replicate
-#check @List.Pairwise.eq_of_perm
-#check @Except.bind_ok
-#check @Except.bind
-example (a : Rat) (f : Rat → Except Err Rat) : ((Except.ok a : Except Err Rat) >>= f) = f a := rfl
-example (a : Rat) (f : Rat → Except Err Rat) : (do let x ← (Except.ok a : Except Err Rat); f x) = f a := by simp
+import Pun.Lemmas.Hier
+import Mathlib.Data.List.Forall2
+open List
+#check @List.forall₂_reverse_iff
+#check @List.Forall₂.reverse
+#check @List.rel_reverse
+example (a x y : Rat) (h : x ≤ y) : (fun v => a + v) x ≤ (fun v => a + v) y := by show a + x ≤ a + y; linarith
